@@ -1,6 +1,14 @@
 """C03 — Leaving a `with model:` block restores the model completely."""
 from contracts import c03_context as C
 from contracts import c03_objective as O
+from contracts import c02_remove_reactions_ctx as RRC
+from contracts import c12_rxn_arith as ARITH
+from contracts import c02_add_metabolites_ctx as AMC
+from contracts import c02_remove_metabolites_ctx as RMC
+from contracts import w_model_small as WMS
+from contracts import c03_glue as GLUE
+from contracts import c03_knockout_ctx as KOC
+from contracts import c03_direction as DIR
 from props._generic import run_property, replay_with_driver
 
 LEVEL = "other"
@@ -12,7 +20,21 @@ OBJECTIVE_KEYS = ["set_objective", "set_objective.reset", "_valid_atoms", "Model
 
 
 def run(rep):
-    run_property(rep, KEYS, hooks=C.ALL_HOOKS, more=[(OBJECTIVE_KEYS, O.HOOKS)], lemmas=lambda: C.lemmas() + O.lemmas(), explanation=(
+    run_property(rep, KEYS, hooks=C.ALL_HOOKS, more=[(OBJECTIVE_KEYS, O.HOOKS), (RRC.KEYS, RRC.HOOKS), (ARITH.KEYS, ARITH.HOOKS),
+                                                      (AMC.KEYS, AMC.HOOKS), (RMC.KEYS, RMC.HOOKS),
+                       (["Model.add_cons_vars", "Model.remove_cons_vars", "Model.objective_direction@setter"], WMS.HOOKS),
+                       (KOC.KEYS, KOC.HOOKS), (DIR.KEYS, DIR.HOOKS)],
+                 lemmas=lambda: (C.lemmas() + O.lemmas() + RRC.lemmas() + ARITH.lemmas() + AMC.lemmas() + RMC.lemmas() + GLUE.lemmas()
+                                 + KOC.lemmas() + DIR.lemmas()), explanation=(
+        "GLUE from the per-operation contracts to the property (contracts/c03_glue.py; closed SMT obligations over the SAME spec function run / eff / World the proved contracts of HistoryManager.reset and Model.__exit__ use; the solvers do no induction, so every inductive lemma is a base and a step obligation with the induction hypothesis - generalised over the start state - as a hypothesis; every lemma has a vacuity guard and a guard that it is NOT provable with a hypothesis dropped): "
+        "(1) prefix lemma (run(h, n, .) depends on h[0..n) only) and segment lemma run(h1 + h2, s) = run(h1, run(h2, s)) by induction on the length; the CONTEXT INVARIANT CI(h, n, s, s_entry) := run(h, n, s) = s_entry for the innermost manager: CI/base from the very post-condition of Model.__enter__ (new manager of length 0, world untouched), CI/step: if CI holds, an operation takes s to s' and appends u_1..u_k to the innermost history, and replaying u_k..u_1 from s' gives s - which IS the operation's undo-restores lemma (remove_reactions, __imul__, add_metabolites, set_objective, removed variable, the resettable setters below) - then CI holds for the longer history and s' (k = 0: nothing registered, nothing changed), the same step MODULO observational equality (the operation lemmas give equal VIEWS, not equal worlds: with obs := all views agree, an equivalence, and the ASSUMED congruence `an undo entry run in obs-equal worlds leaves obs-equal worlds` replay respects obs - run/congruence by induction - and CI/step holds with obs in place of ==); run/unfold:k=1,2 (the state-by-state undo-restores lemmas of __imul__, add_metabolites, set_objective and the removed variable ARE statements about run); CI/exit from the very post-condition of Model.__exit__: the world after the exit is s_entry and the stack is one shorter, CI/nested-block: a complete inner with-block is a null step of the OUTER invariant (hypotheses: registrations go to the innermost manager - proved per operation -, and the manager __enter__ allocates is not on the stack - allocation, assumed). "
+        "(2) a history segment each of whose entries leaves a point-indexed view alone or writes ONE cell with a constant (two writes to one cell carrying the same constant) has the order-independent closed form `a written cell holds the written constant, a changed cell was written` for the LIFO replay run - induction over the segment length for the view shapes Ref -> Ref / Bool / Real and Ref -> Ref -> Bool / Real - and the hypothesis `_replayed` of the remove_reactions undo-restores lemmas (its eleven clauses, built by that module's own function) follows from it for run(U, n, exit world). "
+        "(3) exceptional exit: a `resettable` setter registers partial(setter, self, OLD) BEFORE it runs (proved, also for the raising path), so the step must hold for every state the setter can leave behind: overwriting-setter lemma (the setter overwrites a fixed set of cells with values depending only on its argument and on other cells; the state differs from the one before at most on these cells - complete, PARTIAL or no change; entry invariant) => setter(old) restores exactly; instances for lower_bound / upper_bound / bounds over (lb, ub, the four variable bounds) with the cells the setter writes ARBITRARY afterwards and the three-branch map of update_variable_bounds (shown to be c01_lp's proved clause formula for formula): the undo's own _check_bounds passes and all six cells are restored; Gene.functional and objective_direction (raise before writing, or write). Natively 26 raising / odd setter calls inside a context (NaN bounds rejected by optlang after the assignment, strings, None, wrong arity, non-bool functional, bad direction, malformed rule): all restored on exit, no exit raised - no finding. "
+        "(4) KNOCK-OUTS IN A CONTEXT (contracts/c03_knockout_ctx.py, second contracts Reaction.knock_out[context] and Gene.knock_out[context] for the real sources): the two functions register nothing themselves, only the resettable wrappers of `bounds` and `functional` do; an assignment `x.bounds = v` / `g.functional = v` is given the meaning wrapper-then-body: resettable.wrapper by its proved generic contract instantiated for the attribute (ASSUMED transcription: no context -> body; unchanged value -> nothing; otherwise partial(setter, x, OLD) pushed to the innermost context BEFORE the body), the body by its own proved contract; the context stack through the ghost views ctx_depth / ctx_top of model._contexts. PROVED: Reaction.knock_out registers nothing when the bounds are (0, 0) already (and then does NOT update the variable bounds: the C01 invariant at entry is a stated precondition) and otherwise exactly one bounds undo with the ENTRY pair in the innermost context; Gene.knock_out (loop invariant, any number of reactions) registers the functional undo (old value True) as entry 0 exactly when the gene was functional, then ONE bounds undo with the entry pair for every reaction of the gene whose rule is false and whose entry bounds are not (0, 0), nothing else, nothing twice (witness map), everything in the innermost context - next to everything the no-context contracts prove. Lemmas knock_out/undo-restores:{gene,reaction}-contract:{functional,lower_bound,upper_bound}: from these very post-conditions and the closed form of the LIFO replay (consistency derived from the witness map) functional, lb and ub of EVERY object are the entry ones after the replay; the variable bounds per reaction by resettable/bounds:bounds. Preconditions stated: the receiver is in a model with a context open, the gene's reactions point at the gene's model. knock_out_model_genes in a context: no contract of its own (one Gene.knock_out per gene plus reads: lemma undo-restores/sequence composes the per-gene lemmas). The setter BODIES when they raise (Reaction.lower_bound / upper_bound / bounds@setter[raise]: lb > ub; Gene.functional@setter[raise]: int, None, str, float): ValueError with NOTHING changed, so the undo registered before the call is a no-op. Model.objective_direction setter body (contracts/c03_direction.py, over the assumed objective model of c03_objective; str.lower / str.startswith uninterpreted): lower(value) starting with max / min writes exactly the literal max / min into the installed objective's direction (same objective object, same expression, one solver call), anything else raises ValueError with NOTHING changed; lemma: the undo setter(OLD direction) never raises and leaves the old direction (assumed ground facts about the two literals). "
+        "STAYS ASSUMED: Python's with-protocol (__exit__ is called exactly once on every way out of the block, normal or by an exception), the induction principle over the naturals, non-reentrancy (an undo entry returns and does not touch the history being reset), that the effect of an undo entry depends only on the point-indexed views the operation contracts use (the congruence hypothesis), and that every OTHER context-aware operation has an undo-restores lemma (bounded driver). "
+        "The entry points the other contracts only RECORD are proved to forward faithfully: Model.add_cons_vars(what, **kwargs) makes exactly one call add_cons_vars_to_problem(self, what, **kwargs) (same model, same object, keywords as given), Model.remove_cons_vars(what) exactly one call remove_cons_vars_from_problem(self, what) - the two functions whose solver call and undo registration are proved below. The function under @resettable of the Model.objective_direction setter is proved: value.lower() starting with max / min sets the solver objective's direction to 'max' / 'min' (the documented spellings max, min, maximize, minimize by name), anything else raises ValueError with nothing changed (the decorator, proved as resettable.wrapper, registers the undo before the body validates: an invalid value inside a context leaves a harmless undo entry). "
+        "Context-aware model edits under contract with their undo registrations: Model.remove_reactions with a context open (remove_orphans=False; lists and models of any size): every change it makes to model pointers, model.reactions, back references and group members has its inverse registered in the INNERMOST context, nothing is registered for a change that was not made and nothing twice (ghost trace; per reaction [objective coefficients,] _populate_solver([r]), setattr(r, _model, model), reactions.add(r), x._reaction.add(r) per former referrer, g.add_members([r]) per former group), with the glue lemmas undo-restores (replaying the registered undos on the exit state gives back the entry views); Reaction.__imul__ in a context: exactly the two registrations _populate_solver([self]) and __imul__(1/c), lemma undo-restores (precondition c != 0). "
+        "Model.add_metabolites / Model.remove_metabolites with a context open (lists of any size; remove: list or one metabolite, keeping the reactions or destructive): the final state as without a context, and every change they make themselves to model pointers, model.metabolites, back references (add) and group members (remove) has exactly its inverse registered in the INNERMOST context, nothing for a change that was not made, nothing twice (ghost trace; add: x._reaction.update(exactly the set taken out) per metabolite that lost back-references, metabolites.__isub__(joining), setattr(x, _model, None) per joining metabolite, nothing on the early exits; remove: g.add_members([x]) per former (metabolite, group) membership, metabolites.__iadd__(handled), setattr(x, _model, model) per handled metabolite; constraints through the recorded add_cons_vars / remove_cons_vars call whose own registration is proved below; subtract_metabolites called with the default reversibly, remove_from_model = remove_reactions), the captured lists are read in the exit state (not mutated after registration), glue lemmas undo-restores; two defects visible in these contracts are reported (the registered inverse of `x._model = self` is None, not the old value: a metabolite taken from another model loses its model pointer; a raising DictList.__iadd__ / __isub__ leaves model pointers changed with no inverse registered). "
         "Deductive (kernel): HistoryManager.reset is proved to replay the recorded undo actions last-in-first-out and to empty the "
         "history (loop invariant over the recursive spec function run, with a decreasing variant), __call__ to append, get_context "
         "to return the innermost context of the object's model or None for every object shape, and the resettable wrapper to "
@@ -77,6 +99,7 @@ def run(rep):
         "state incl. the raw GLPK problem snapshotted at __enter__ and compared after __exit__ over operation sequences, nestings, "
         "exits by exception and naturally raising operations)."),
         trusted=["non-reentrancy: an undo entry does not touch the history being reset (stated in the reset contract)",
+                 "glue (contracts/c03_glue.py): Python's `with` protocol calls Model.__exit__ exactly once on every exit of the block; induction over the naturals (base + step obligations are discharged, the principle is meta-level); the manager allocated by __enter__ is not already on the stack; congruence of undo entries w.r.t. equality of the point-indexed views; gene_reaction_rule / gpr setters only through the abstract overwriting-setter lemma",
                  "optlang (assumed contracts, ghost matrix A): Constraint.get_linear_coefficients([v]) reads A[c][v]; "
                  "Constraint.set_linear_coefficients({v: x}) writes exactly A[c][v] := x; Container: `name in`, `[name]` by pairwise "
                  "different constraint names; Model.update() writes no coefficient; `variable.problem is solver` decides membership; "
